@@ -58,7 +58,7 @@ func (fgen *funcGen) newShuffleVectorInst(ident ir.LocalIdent, old *ast.ShuffleV
 	if !ok {
 		panic(fmt.Errorf("invalid vector type; expected *types.VectorType, got %T", maskType))
 	}
-	typ := types.NewVector(mt.Len, xt.ElemType)
+	typ := &types.VectorType{Scalable: mt.Scalable, Len: mt.Len, ElemType: xt.ElemType}
 	return &ir.InstShuffleVector{LocalIdent: ident, Typ: typ}, nil
 }
 
